@@ -7,7 +7,8 @@ Spec: spec/Collections.tla.  State = the mathematical model only (Kind="set": a 
       insertion order kept on overwrite, ...).
       A set-valued call (copy(), zero-operand union() / intersection() / difference(), the one-operand calls with {}
       and with the receiver's own contents) hands out a SECOND object R; probes then change R (S must stay) or S
-      (R must stay), and `result is not s` is part of the projected state.
+      (R must stay), and `result is not s` is part of the projected state.  The model operand T of a binary
+      operation is a set; on the real side it is also given as a list / tuple that REPEATS elements of T.
 TLC : one run per data type.  Every sequence of <= MaxSteps mutating operations, each followed by any observer;
       invariants IterationSorted, SetAlgebra, SetResults, MapWellFormed, MapResults, action property MapOrderStable;
       coverage guard (every named action taken) and Witness_* reachability predicates that must be violated.
@@ -83,6 +84,9 @@ def plans(ctx):
             ("map interleaved N=3 depth=3", constants("map", 3, [], 3, interleave=True))]
 
 
+DUPS_TAIL = ":operand-with-repeated-elements"
+
+
 def _kind(consts):
     return consts["Kind"].strip('"')
 
@@ -98,6 +102,12 @@ def signature_of(kind, d):
     if isinstance(obs, dict) and "exc" in obs and d["what"] == "result":
         tail = ":" + obs["exc"]
     op = d["op"]
+    if str(d.get("form", "")).endswith("dups"):
+        # operand given as a list / tuple with repeated elements.  issuperset / >= / > / < all take len(other) for
+        # the number of distinct elements of the operand: one root cause, one signature
+        if op in ("issuperset", "ge", "gt", "lt") and d["what"] == "result":
+            return "SortedSet.issuperset:result:operand-with-repeated-elements"
+        tail += DUPS_TAIL
     if op in ("derive", "mut_result", "mut_original"):       # name the call / probe, not only the action
         arg = d["action"]["arg"]
         op = "%s(%s)" % (op, arg[0])
@@ -112,11 +122,19 @@ class Reporter:
     def __init__(self, ctx, kind, n, reported):
         self.ctx, self.kind, self.n = ctx, kind, n
         self.counts = {}
+        self.by_op = {}
         self.reported = reported                              # signatures already reported by earlier runs
 
     def __call__(self, d, history):
         sig = signature_of(self.kind, d)
+        if sig.endswith(DUPS_TAIL):
+            # the same operation already diverges with ordinary operands: not a matter of repeated elements
+            base = signature_of(self.kind, dict(d, form="list"))
+            if base in self.counts or base in self.reported:
+                sig = base
         self.counts[sig] = self.counts.get(sig, 0) + 1
+        ops = self.by_op.setdefault(sig, {})
+        ops[d["op"]] = ops.get(d["op"], 0) + 1
         if self.counts[sig] > 1 or sig in self.reported:
             return
         self.reported.add(sig)
@@ -290,12 +308,15 @@ def replay_plan(ctx, label, consts, graph, summary, reported):
     st = selftest(ctx, kind, n, nodes, max(walks, key=len), obs_out)
     summary.append({"run": label, "graph_nodes": len(nodes), "graph_edges": len(all_edges),
                     "mutator_edges": len(mut_edges), "exhaustive": exhaustive,
-                    "instantiations": per_inst, "divergences": dict(rep.counts), "binding_selftest": st,
+                    "instantiations": per_inst, "divergences": dict(rep.counts), "divergences_by_operation": dict(rep.by_op), "binding_selftest": st,
                     "replay_wall_s": round(time.time() - t0, 1)})
     return exhaustive, st
 
 
 def run(ctx):
+    # operand form "dups" (list / tuple repeating elements): ints only in the quick tier, every instantiation in thorough
+    rc.DUP_FORM_INSTS = {"ints"} if ctx.quick else {"ints", "tuples", "lists"}
+    ctx.note("repeated_element_operands", sorted(rc.DUP_FORM_INSTS))
     summary = []
     exhaustive = True
     selftests = {}
@@ -332,10 +353,15 @@ def run(ctx):
                                          for i in rc.MAP_INSTS.values()}})
     ctx.assumptions += [
         "SortedSet elements are of one totally ordered type (ints, tuples, lists); dicts and nested SortedSets are not "
-        "totally ordered by `<` and are outside the claim (the TypeError fallback of _find_insertion is not exercised)",
-        "a plain list given as the other operand holds no duplicates; s.symmetric_difference(list) / s ^ list / s ^= list "
-        "are not offered by the class (it calls other.difference) and are left out; results need only iterate in "
-        "ascending order (their type is not demanded)",
+        "totally ordered by `<` and are outside the claim (the TypeError fallback of _find_insertion is not exercised); "
+        "frozenset elements are only partially ordered by `<` and are outside too: the instantiations use ints, tuples "
+        "and lists only",
+        "a plain list / tuple given as the other operand is read as the set of its elements, also when it repeats some "
+        "(operand form 'dups': issubset / issuperset / isdisjoint, union / intersection / difference and reflected "
+        "difference as methods and operators, <= < >= >, update, |= &= -=, the constructor); equality with a list that "
+        "repeats elements is left out (== / != with a non-SortedSet compares len(), and a builtin set never equals a "
+        "list); s.symmetric_difference(list) / s ^ list / s ^= list are not offered by the class (it calls "
+        "other.difference) and are left out; results need only iterate in ascending order (their type is not demanded)",
         "keys of the pickle-identified OrderedMap are built the same way each time (equal keys whose pickles differ - "
         "dicts with another insertion order, values sharing sub-objects - are outside 'identified by their encoding')",
         "OrderedMap == OrderedMap compares stored keys with Python's ==, so the operand is written with the key "
@@ -353,6 +379,7 @@ def replay(ctx, obj):
             print(a)
         return
     kind, inst, n = obj["kind"], obj["inst"], obj["n"]
+    rc.DUP_FORM_INSTS = {"ints", "tuples", "lists"}
     b = rc.make_binding(kind, inst, None, n)
     midx = 0
     for i, o in enumerate(obj["ops"]):
